@@ -46,6 +46,12 @@ Oracle clauses (signature prefix)
                                          when the message was the first of its connection and the server side never
                                          sent an I/RR/RNR PDU on it (lost at connection set-up; findings-proposed F2)
 
+Record boundaries: handover has no length framing - the receiver appends fragments until what it has collected decodes as a
+complete NDEF message - so the generator aims RECORD boundaries (not only message sizes) at the sender's fragment
+boundaries (k*MIU-2..+2, k = 1..3, 2-5 records, both directions; ho_message_rb / ndef_exact_rb).  The oracles are the
+unchanged octet-equality / exactly-once clauses at the application boundary; what was hit is read back from the verified
+message (record_offsets) and counted as record_boundary_at_fragment_boundary/{request,select,snep_put,snep_get_response}.
+
 Quiescence ("never" instead of "not yet", no clock involved): the link is alive, the wire carried only SYMM for
 SETTLE_SYMM consecutive frames twice in a row with no other frame in between, and at both looks every thread that
 is inside nfc/snep/server.py or nfc/handover/server.py was parked in threading.Condition.wait (waiting for the LLC):
@@ -86,7 +92,15 @@ RULE = ("a case is one transfer (SNEP put, SNEP get, handover request+select) ex
         "max_ndef_msg_recv_size) placed at size-7..size+7; every shard additionally runs the sequence-number wrap "
         "class: per receive window 1, 2, 15 one link with all receiving sockets at MIU 128 carrying single messages "
         "of 17+RW..40 fragments in each direction (put request, get response, handover request, handover select) "
-        "and SNEP and handover connections with 20-24 (RW 15: 34-36) operations.  Distinct = (protocol, kind, size(s), connection MIUs, "
+        "and SNEP and handover connections with 20-24 (RW 15: 34-36) operations; about 45 % of the handover dialogues "
+        "(request, select or both) and 5 % of all connections (SNEP put requests, get responses, some get requests) carry "
+        "multi-record messages of 2-5 records whose RECORD boundaries are placed at k*F-2..k*F+2 (k = 1..3, the exact "
+        "coincidence weighted 3 of 7; 1-3 such boundaries per message) where F is the fragment size the sender slices "
+        "at = the send MIU of its data link connection (handover client: SO_SNDMIU = min(server socket MIU, server link "
+        "MIU); handover server: min(client recv_miu, client link MIU); SNEP: the same behind the 6/10 octet header): an "
+        "Hr/Hs record with alternative carrier records referring to carrier / auxiliary records (media-type, external-type "
+        "and Hc records) of controlled sizes; 2-record messages size the Hr/Hs record itself through the length of the "
+        "carrier data reference.  Distinct = (protocol, kind, size(s), connection MIUs, "
         "role, aggregation flags, window sizes, limit relation); non-trivial = both ends of the transfer reached the "
         "comparison of the octets at the receiving application.  Part (b) repeats the scenarios (one connection at "
         "a time) over the complete stack with NFC-DEP LRi/LRt 0..3, bit rate selection 0..2 and active/passive mode")
@@ -101,12 +115,16 @@ ASSUMPTIONS = [
 REQUIRED = ["snep_put_checked", "snep_get_checked", "ho_request_checked", "ho_response_checked",
             "snep_put_oversize_refused", "snep_get_excess_refused", "fragmented_requests", "fragmented_responses",
             "wire_I_pdus", "wire_snep_continue", "wire_snep_reject", "followed_boundary_ops",
-            "followed_get_response_exactly_k_miu", "seqwrap_transfers", "seqwrap_long_connections"]
+            "followed_get_response_exactly_k_miu", "seqwrap_transfers", "seqwrap_long_connections",
+            "record_boundary_at_fragment_boundary/request", "record_boundary_at_fragment_boundary/select",
+            "record_boundary_at_fragment_boundary/snep_put", "record_boundary_at_fragment_boundary/snep_get_response"]
 
 CALL_TIMEOUT = 3.0          # timeout argument given to put/get/recv_octets (nfcpy waits on it with real time)
 SETTLE_SYMM = 4             # consecutive SYMM frames that count as "wire idle"
 QUIESCE_ROUNDS = 12         # looks at wire + server threads before "not quiescent" (-> inconclusive)
 CHAIN_SHARE = 0.4           # share of SNEP connections generated as boundary chains
+RB_HO_SHARE = 0.45          # share of handover dialogues with record boundaries aimed at the fragment boundaries
+RB_SNEP_SHARE = 0.05        # share of all connections: SNEP connections with such multi-record messages
 
 SVC_NAMES = ["urn:nfc:sn:snep", "urn:nfc:xsn:vf.c06:lim"]
 SNEP_DEFAULT_MAX = 0x100000
@@ -234,6 +252,132 @@ def ho_message(kind, size, mid):
         m = enc(_ho_base(kind, mid, False))
     if enc(list(ndef.message_decoder(m, "relax"))) != m:
         raise RuntimeError("generator: handover message does not round trip")
+    list(ndef.message_decoder(m, "strict", {}))
+    return m
+
+
+# ---------------------------------------------------------------------------------------------------------------
+# multi-record messages whose RECORD boundaries sit at chosen octet offsets (aimed at the sender's fragment boundaries:
+# handover has no length framing, the receiver decides "complete" by decoding what it has collected so far - a prefix
+# that ends exactly between two records is the interesting input; SNEP carries the same shapes for completeness)
+RB_D = (-2, -1, 0, 1, 2)
+RB_GAP = 24                 # smallest record the builders are asked for
+RB_HO_LO = 96               # first free record boundary of a handover message (behind the Hr/Hs record and a minimal record)
+
+
+def record_offsets(msg):
+    """start offsets of the NDEF records in `msg`: a structural walk over the record headers (MB/ME/CF/SR/IL/TNF octet,
+    type length, payload length, id length), independent of ndeflib; used to *observe* where the boundaries of a
+    verified message were relative to the fragment size of its connection"""
+    offs, i, n = [], 0, len(msg)
+    while i < n:
+        offs.append(i)
+        f, tl = msg[i], msg[i + 1]
+        if f & 0x10:
+            pl, j = msg[i + 2], i + 3
+        else:
+            pl, j = int.from_bytes(msg[i + 2:i + 6], "big"), i + 6
+        il = 0
+        if f & 0x08:
+            il, j = msg[j], j + 1
+        i = j + tl + il + pl
+    if i != n:
+        raise RuntimeError("generator: record walk does not end at the end of the message")
+    return offs
+
+
+def fit_record(make, size):
+    """the record make(n, extra) (n payload octets, type name grown by `extra` characters) that encodes to exactly
+    `size` octets; the type name grows where neither a short nor a long record can have that size"""
+    for extra in range(5):
+        base = len(enc([make(0, extra)]))
+        for n in (size - base, size - base - 3):
+            if n >= 0:
+                r = make(n, extra)
+                if len(enc([r])) == size:
+                    return r
+    raise RuntimeError("generator: no record of %d octets" % size)
+
+
+def _rb_maker(kind, rid, pid):
+    """kind 0: media-type record, 1: external-type record, 2: Handover Carrier record; `rid` = record id / reference"""
+    ndef = _ndef()
+    if kind == 0:
+        return lambda n, x: ndef.Record("vf/c" + "x" * x, rid, _payload(pid, n))
+    if kind == 1:
+        return lambda n, x: ndef.Record("urn:nfc:ext:vf:r" + "x" * x, rid, _payload(pid, n))
+    # (the carrier type is part of the Hc payload: where the payload length octets leave a gap a media-type record stands in)
+    return lambda n, x: (ndef.Record("vf/h" + "x" * x, rid, _payload(pid, n)) if x else
+                         ndef.HandoverCarrierRecord("vf/h", _payload(pid, n), rid or None))
+
+
+def _check_rb(m, bounds, size, decode_args):
+    ndef = _ndef()
+    if len(m) != size or record_offsets(m) != [0] + list(bounds):
+        raise RuntimeError("generator: record boundaries %r / size %d not met (%r, %d)" % (bounds, size, record_offsets(m)[1:], len(m)))
+    if enc(list(ndef.message_decoder(m, *decode_args))) != m:
+        raise RuntimeError("generator: multi-record message does not round trip")
+
+
+def ndef_exact_rb(size, cuts, mid):
+    """NDEF message of exactly `size` octets whose records start at 0 and at every offset in `cuts` (ascending)"""
+    prng = random.Random(mid ^ 0x5EED)
+    bounds = list(cuts) + [size]
+    recs, at = [], 0
+    for i, b in enumerate(bounds):
+        rid = "" if prng.random() < 0.5 else "i%d" % i
+        recs.append(fit_record(_rb_maker(prng.randrange(2), rid, 0x40000000 + mid * 16 + i), b - at))
+        at = b
+    m = enc(recs)
+    _check_rb(m, cuts, size, ("strict", {}))
+    return m
+
+
+def ho_message_rb(kind, size, spec, mid):
+    """valid Handover Request ('Hr') / Select ('Hs') message of exactly `size` octets with 2 + len(cuts) records:
+    the Hr/Hs record (ending at spec['first'] when that is given: sized through the length of the carrier data reference
+    = id of the carrier record), then records ending at each of spec['cuts'] and at `size`.  Every further record is a
+    carrier configuration or auxiliary data record with an id that an alternative carrier record in the Hr/Hs record
+    refers to.  Raises ValueError when spec['first'] cannot be met (the caller picks another shape)"""
+    ndef = _ndef()
+    prng = random.Random(mid ^ 0xB0D1)
+    cuts, first = list(spec["cuts"]), spec.get("first")
+    n = len(cuts) + 1
+    roles = ["c"] + [prng.choice("ca") for _ in range(n - 1)]
+    cps = [prng.choice(["active", "inactive", "activating", "unknown"]) for _ in range(n)]
+    kinds = [prng.randrange(3) for _ in range(n)]
+    owner = [prng.randrange(1 << 16) for _ in range(n)]
+
+    def head(ids):
+        rec = ndef.HandoverRequestRecord("1.3", mid & 0xFFFF) if kind == "Hr" else ndef.HandoverSelectRecord("1.3")
+        acs = []
+        for i, rid in enumerate(ids):
+            if roles[i] == "c":
+                acs.append([cps[i], rid, []])
+            else:
+                acs[owner[i] % len(acs)][2].append(rid)
+        for c, r, a in acs:
+            rec.add_alternative_carrier(c, r, *a)
+        return rec
+
+    ids = ["c%d" % (i + 1) for i in range(n)]
+    if first is not None:
+        for ln in range(1, 256):
+            ids[0] = ("c1" + "r" * ln)[:ln]
+            if len(enc([head(ids)])) == first:
+                break
+        else:
+            raise ValueError("no %s record of %d octets" % (kind, first))
+    recs = [head(ids)]
+    at = len(enc(recs))
+    bounds = [at] + cuts
+    for i, b in enumerate(cuts + [size]):
+        if b - at < 12 + len(ids[i]):
+            raise ValueError("record %d of %d octets cannot carry its id" % (i + 1, b - at))
+        recs.append(fit_record(_rb_maker(kinds[i], ids[i], 0x40000000 + mid * 16 + i), b - at))
+        at = b
+    m = enc(recs)
+    _check_rb(m, bounds, size, ("relax",))
     list(ndef.message_decoder(m, "strict", {}))
     return m
 
@@ -531,6 +675,96 @@ class ChainEdges:
         return self.pool.pop()
 
 
+class RbEdges:
+    """(k, d) for record boundaries: every offset -2..+2 around k * fragment size for k = 1..3, the exact coincidence
+    d = 0 three times each (21 entries per cycle)"""
+    def __init__(self, rng):
+        self.rng, self.pool = rng, []
+
+    def next(self):
+        if not self.pool:
+            self.pool = [(k, d) for k in (1, 2, 3) for d in (-2, -1, 0, 0, 0, 1, 2)]
+            self.rng.shuffle(self.pool)
+        return self.pool.pop()
+
+
+def gen_rb_cuts(rng, kd, miu, hdr, ncuts, lo):
+    """`ncuts` record boundaries (ascending offsets in the NDEF message) for a sender that slices at `miu` behind a
+    protocol header of `hdr` octets: 1..3 of them at k*miu + d - hdr (distinct k in 1..3, the first one = kd, d in
+    -2..+2), the others anywhere from `lo` on; returns (cuts, message size)"""
+    k, d = kd
+    nt = rng.randint(1, min(3, ncuts))
+    ks = [k] + rng.sample([x for x in (1, 2, 3) if x != k], nt - 1)
+    cuts = set(kk * miu + (d if kk == k else rng.choice(RB_D + (0, 0))) - hdr for kk in ks)
+    top = max(cuts)
+    for _ in range(40):
+        if len(cuts) >= ncuts:
+            break
+        c = rng.randint(lo, top + miu)
+        if all(abs(c - x) >= RB_GAP for x in cuts):
+            cuts.add(c)
+    cuts = sorted(cuts)
+    tail = rng.randint(RB_GAP, 90) if rng.random() < 0.5 else rng.randint(RB_GAP, miu + 40)
+    return cuts, cuts[-1] + tail
+
+
+def gen_rb_ho(rng, rbe, miu, kind, mid):
+    """size and record-boundary spec of one handover message with 2..5 records for a sender slicing at `miu`"""
+    kd = rbe.next()
+    nrec = rng.choice([2, 3, 3, 4, 5])
+    if nrec == 2:
+        # the only boundary is the end of the Hr/Hs record: possible while k*miu+d is within reach of one carrier reference
+        for k in (kd[0], 1):
+            spec = {"first": k * miu + kd[1], "cuts": []}
+            size = spec["first"] + rng.randint(300, 300 + miu)
+            try:
+                ho_message_rb(kind, size, spec, mid)
+                return size, spec
+            except ValueError:
+                pass
+        nrec = 3
+    cuts, size = gen_rb_cuts(rng, kd, miu, 0, nrec - 2, RB_HO_LO)
+    return size, {"first": None, "cuts": cuts}
+
+
+def gen_rb_ho_op(rng, rbe, edges, up, down, mids):
+    """a handover dialogue whose request, select or both messages have record boundaries at the fragment boundaries"""
+    op = {"op": "ho", "mid": next(mids), "rmid": next(mids)}
+    sides = rng.choice(["q", "r", "r", "qr"])
+    for side, miu, kind, mkey in (("q", up, "Hr", "mid"), ("r", down, "Hs", "rmid")):
+        if side in sides:
+            op["n" + side], op["rb" + side] = gen_rb_ho(rng, rbe, miu, kind, op[mkey])
+        else:
+            op["n" + side] = pick_size(rng, edges, miu, 0, floor=16)
+    return op
+
+
+def gen_rb_snep(rng, cfg, end, rbe, mids):
+    """an explicit SNEP connection (default server, no limit in the way) whose put requests / get responses (some get
+    requests) are multi-record messages with record boundaries at the fragment boundaries of the SNEP message"""
+    conn = {"proto": "snep", "end": end, "svc": 0, "implicit": False, "tuned": None, "rb": True}
+    if rng.random() < 0.5:
+        conn["tuned"] = {"miu": rng.choice([128, 129, 200, 248, 2175, rng.randint(128, 2175)]),
+                         "rw": rng.choice([1, 2, 15, rng.randint(1, 15)])}
+    up, down = conn_mius(cfg, conn)
+    ops = []
+    for _ in range(rng.choice([1, 2, 2, 3])):
+        if rng.random() < 0.5:
+            cuts, size = gen_rb_cuts(rng, rbe.next(), up, 6, rng.randint(1, 4), RB_GAP)
+            ops.append({"op": "put", "n": size, "rb": cuts, "mid": next(mids)})
+        else:
+            cuts, size = gen_rb_cuts(rng, rbe.next(), down, 6, rng.randint(1, 4), RB_GAP)
+            op = {"op": "get", "nq": rng.choice([3, 20, rng.randint(4, 60)]), "nr": size, "rbr": cuts, "mid": next(mids),
+                  "rmid": next(mids)}
+            if rng.random() < 0.3:
+                op["rbq"], op["nq"] = gen_rb_cuts(rng, rbe.next(), up, 10, rng.randint(1, 3), RB_GAP)
+            ops.append(op)
+    top = max([op["nr"] for op in ops if op["op"] == "get"] + [0])
+    conn["acc"] = top + rng.choice([0, 1, 1000])
+    conn["ops"] = ops
+    return conn
+
+
 def gen_chain(rng, cfg, end, cedges, mids):
     """an explicit SNEP connection whose operations put whole SNEP messages (header included) of k*MIU-7..k*MIU+7
     octets on the connection - get responses (6 octet header, client's receive MIU), put requests (6) and get requests
@@ -627,6 +861,9 @@ def gen_script(rng, cfg, nbatches, edges, mids):
     cedges = getattr(edges, "chain", None)
     if cedges is None:
         cedges = edges.chain = ChainEdges(rng)
+    rbe = getattr(edges, "rb", None)
+    if rbe is None:
+        rbe = edges.rb = RbEdges(rng)
     for _ in range(nbatches):
         nconn = 1 if rng.random() < 0.7 else 2
         batch = []
@@ -635,6 +872,8 @@ def gen_script(rng, cfg, nbatches, edges, mids):
             r = rng.random()
             if r < 0.62 * CHAIN_SHARE:
                 conn = gen_chain(rng, cfg, end, cedges, mids)
+            elif r < 0.62 * CHAIN_SHARE + RB_SNEP_SHARE:
+                conn = gen_rb_snep(rng, cfg, end, rbe, mids)
             elif r < 0.62:
                 conn = {"proto": "snep", "end": end, "svc": 0 if rng.random() < 0.55 else 1}
                 conn["implicit"] = conn["svc"] == 0 and rng.random() < 0.3
@@ -686,6 +925,9 @@ def gen_script(rng, cfg, nbatches, edges, mids):
                 up, down = conn_mius(cfg, conn)
                 ops = []
                 for _o in range(rng.choice([1, 2, 2, 3]) if ho_multi else 1):
+                    if rng.random() < RB_HO_SHARE:
+                        ops.append(gen_rb_ho_op(rng, rbe, edges, up, down, mids))
+                        continue
                     ops.append({"op": "ho", "nq": pick_size(rng, edges, up, 0, floor=16), "nr": pick_size(rng, edges, down, 0, floor=16),
                                 "mid": next(mids), "rmid": next(mids)})
                 conn["ops"] = ops
@@ -751,13 +993,13 @@ def materialize(conn):
     """octets of every message of a connection script (deterministic in sizes and ids)"""
     for op in conn["ops"]:
         if op["op"] == "put":
-            op["_msg"] = ndef_exact(op["n"], op["mid"])
+            op["_msg"] = ndef_exact_rb(op["n"], op["rb"], op["mid"]) if op.get("rb") else ndef_exact(op["n"], op["mid"])
         elif op["op"] == "get":
-            op["_msg"] = ndef_exact(op["nq"], op["mid"])
-            op["_resp"] = ndef_exact(op["nr"], op["rmid"])
+            op["_msg"] = ndef_exact_rb(op["nq"], op["rbq"], op["mid"]) if op.get("rbq") else ndef_exact(op["nq"], op["mid"])
+            op["_resp"] = ndef_exact_rb(op["nr"], op["rbr"], op["rmid"]) if op.get("rbr") else ndef_exact(op["nr"], op["rmid"])
         else:
-            op["_msg"] = ho_message("Hr", op["nq"], op["mid"])
-            op["_resp"] = ho_message("Hs", op["nr"], op["rmid"])
+            op["_msg"] = ho_message_rb("Hr", op["nq"], op["rbq"], op["mid"]) if op.get("rbq") else ho_message("Hr", op["nq"], op["mid"])
+            op["_resp"] = ho_message_rb("Hs", op["nr"], op["rbr"], op["rmid"]) if op.get("rbr") else ho_message("Hs", op["nr"], op["rmid"])
 
 
 def strip(script):
@@ -1376,6 +1618,31 @@ def note_followed(R, cfg, conn, res, prev):
         R.count("followed_boundary_ops")
 
 
+def note_record_boundaries(R, name, msg, hdr, miu):
+    """evidence: where the record boundaries of a message that was just verified at the receiving application were,
+    relative to the fragment size `miu` the sender of that connection slices at (`hdr` protocol header octets in front
+    of the NDEF message); read from the message itself (record_offsets), not from the generator's intention"""
+    offs = record_offsets(msg)[1:]
+    if not offs:
+        return
+    exact = near = False
+    for b in offs:
+        k = (b + hdr + miu // 2) // miu
+        d = b + hdr - k * miu
+        if k >= 1 and -2 <= d <= 2 and len(msg) + hdr > k * miu:
+            near = True
+            R.seen("record_boundary_offset/%s" % name, d)
+            R.seen("record_boundary_k/%s" % name, k if k <= 3 else ">3")
+            if d == 0:
+                exact = True
+    if near:
+        R.count("record_boundary_near_fragment_boundary/%s" % name)
+        R.seen("record_boundary_records/%s" % name, len(offs) + 1)
+    if exact:
+        R.count("record_boundary_at_fragment_boundary/%s" % name)
+        R.seen("record_boundary_exact_records/%s" % name, len(offs) + 1)
+
+
 def eval_op(ev, conn, res, opi, op, o, srv_end, batch_msgs, single):
     link, R, cfg = ev.link, ev.R, ev.cfg
     out = o["outcome"]
@@ -1445,6 +1712,7 @@ def eval_op(ev, conn, res, opi, op, o, srv_end, batch_msgs, single):
             R.count("snep_put_checked")
             op["_full"] = True
             edge_note("put", n, 6, up_miu)
+            note_record_boundaries(R, "snep_put", msg, 6, up_miu)
             if n + 6 > up_miu:
                 R.count("fragmented_requests")
             if abs(n - L) <= 8:
@@ -1548,6 +1816,8 @@ def eval_op(ev, conn, res, opi, op, o, srv_end, batch_msgs, single):
                 op["_full"] = True
                 edge_note("get_request", nq, 10, up_miu)
                 edge_note("get_response", nr, 6, down_miu)
+                note_record_boundaries(R, "snep_get_request", q, 10, up_miu)
+                note_record_boundaries(R, "snep_get_response", rsp, 6, down_miu)
                 if nq + 10 > up_miu:
                     R.count("fragmented_requests")
                 if nr + 6 > down_miu:
@@ -1598,7 +1868,8 @@ def eval_op(ev, conn, res, opi, op, o, srv_end, batch_msgs, single):
     # ------------------------------------------------------------------------------------------- handover
     q, rsp = op["_msg"], op["_resp"]
     nq, nr = len(q), len(rsp)
-    key = ("ho", nq, nr, up_miu, down_miu, role, agf, conn["rw"], cfg["ho"][srv_end]["recv_buf"], opi)
+    key = ("ho", nq, nr, up_miu, down_miu, role, agf, conn["rw"], cfg["ho"][srv_end]["recv_buf"], opi,
+           len(record_offsets(q)), len(record_offsets(rsp)))
     R.case(key)
     sent_ok, got = out[1], out[2]
     if not sent_ok:
@@ -1614,11 +1885,13 @@ def eval_op(ev, conn, res, opi, op, o, srv_end, batch_msgs, single):
     if opi > 0:
         R.count("ho_request_checked_nth_on_connection")
     edge_note("ho_request", nq, 0, up_miu)
+    note_record_boundaries(R, "request", q, 0, up_miu)
     if nq > up_miu:
         R.count("fragmented_requests")
     if got == rsp:
         R.count("ho_response_checked")
         edge_note("ho_response", nr, 0, down_miu)
+        note_record_boundaries(R, "select", rsp, 0, down_miu)
         if nr > down_miu:
             R.count("fragmented_responses")
         if R.evals % 97 == 3:
